@@ -30,3 +30,5 @@ def check(ctx):
     config.helpers_gather(ctx)   # PERM's transfer functions assume gather-type helpers
     ctx.floor("PERM-sink", 9)
     drivers.results_helpers(ctx)
+    drivers.adapter_column_order(ctx)
+    drivers.adapter_column_ids(ctx)
